@@ -34,14 +34,23 @@
 //!           4 Plutus V2 script in the witness set, WITNESS datum (PlutusWitness::new; datum = bytes of length 1 + id mod 40)
 //!           5 Plutus V2 script BY REFERENCE, inline datum (new_with_ref_without_datum)
 //!           6 Plutus V2 script BY REFERENCE, witness datum (new_with_ref + DatumSource::new)
-//!           3..6: spend redeemer with ExUnits(<mem>, <steps>); mem = steps = 0 for kinds 0..2.
-//!           <refsize>, kinds 5/6: script_size of the referenced script (script hash and reference outpoint are functions of
-//!           <refsize>: equal sizes = one referenced script).  <refsize> > 0, kinds 0..4: the UTxO's OWN output carries a
-//!           script_ref (Plutus V2 script, content a function of id) with ScriptRef::to_unwrapped_bytes().len() = <refsize>.
+//!           7 the Plutus script that kinds 5/6 with the same <refsize> reference, but INLINE in the witness set, inline datum
+//!           8 the same with a witness datum
+//!           9 native script BY REFERENCE (NativeScriptSource::new_ref_input, script_size = <refsize>): the script is
+//!             ScriptPubkey kh(S mod 12) for even S = <refsize>, ScriptAll [kh(S mod 12), kh((S+1) mod 12)] for odd S; its
+//!             keys are declared (set_required_signers) and sign
+//!           3..8: spend redeemer with ExUnits(<mem>, <steps>); mem = steps = 0 for kinds 0..2 and 9.
+//!           <refsize>, kinds 5..9: names the script (equal sizes = one script, one hash); for 5/6/9 it is also the declared
+//!           script_size, and the reference outpoint is f(class, <refsize>, id mod 2), class = plutus (5/6) | native (9):
+//!           two such UTxOs with ids of different parity name two DIFFERENT reference UTxOs carrying the same script.
+//!           Kinds 5..9 carry no script_ref of their own (0 reference-script bytes for the spent UTxO itself).
+//!           <refsize> > 0, kinds 0..4: the UTxO's OWN output carries a script_ref (content a function of id) with
+//!           ScriptRef::to_unwrapped_bytes().len() = <refsize>; its kind by id mod 4: 0 native script (ScriptAll of key
+//!           hashes and 3-byte time locks), 1 Plutus V1, 2 Plutus V2, 3 Plutus V3.
 //!   in id = the UTxO goes into ONE TxInputsBuilder (all kinds), re-installed with set_inputs after each `in`.  Route (a
 //!           static function of the case; XR = the ids that have an `xr` op anywhere in OPS):
 //!           UTxO form (add_regular_utxo / add_native_script_utxo / add_plutus_script_utxo with the UTxO's output) for
-//!             kinds 0..4 with refsize > 0 unless (id in XR and id mod 3 != 0), and for refsize = 0 (or kinds 5/6) with odd id;
+//!             kinds 0..4 with refsize > 0 unless (id in XR and id mod 3 != 0), and for refsize = 0 (or kinds 5..9) with odd id;
 //!           ADDRESS form otherwise: add_key_input (id mod 4 = 0) / add_regular_input (else) for kind 0, add_bootstrap_input
 //!             (id mod 4 = 0) / add_regular_input for kind 1, add_native_script_input, add_plutus_script_input.  (An input with
 //!             its own script_ref in address form: the builder learns the script size only from the xr registration.)
@@ -65,7 +74,10 @@
 //!   ScriptPubkey kh((i + 5) mod 12), added with add_with_native_script (that key signs).
 //!   Withdrawal <addr>: 21..31 -> script credential = hash of ScriptPubkey kh(addr - 20), add_with_native_script (that key
 //!   signs); 41..51 -> script credential = hash of a Plutus V2 script (bytes depend on addr), add_with_plutus_witness without
-//!   datum, Reward redeemer with ExUnits(addr * 1000, addr * 1000000); otherwise key credential kh(addr mod 12).
+//!   datum, Reward redeemer with ExUnits(addr * 1000, addr * 1000000); 61..71 -> the Plutus script BY REFERENCE that kinds
+//!   5/6 of refsize S = WDREF[addr - 61] use, WDREF = [100, 2500, 14000, 25599, 25600, 25601, 51200, 60000, 200000, 3, 30],
+//!   reference outpoint f(plutus, S, 0) (the one an even-id kind-5/6 UTxO of that size names), same redeemer convention;
+//!   otherwise key credential kh(addr mod 12).
 //!   Minting policy i is ScriptPubkey kh(1000 + i).  Before the first change / selchange op, when a Plutus input or Plutus
 //!   withdrawal is present, the harness calls calc_script_data_hash (dummy V2 cost model) so that build_tx passes its pre-checks.
 //!
@@ -86,8 +98,9 @@
 //!        collateral, certs, withdrawals, mint, required_signers) and the scenario's UTxO table, never off the builder's own
 //!        counting.  mem / steps = sums over the redeemers of the witness set; refsize = the LEDGER rule on the body: over
 //!        the set of outpoints body.inputs + body.reference_inputs (each once) the true script bytes on the outpoint: a
-//!        scenario UTxO of kinds 0..4 -> its <refsize> (not what an xr declared), the reference outpoint of a kind-5/6
-//!        script -> that <refsize>, a fresh `x ref` outpoint -> its size, `x refplain` outpoints and kind-5/6 UTxOs -> 0.
+//!        scenario UTxO of kinds 0..4 -> its <refsize> (not what an xr declared), a reference outpoint f(class, S, v) of a
+//!        by-reference script (kinds 5/6/9, withdrawals 61..71) -> S, a fresh `x ref` outpoint -> its size, `x refplain`
+//!        outpoints and the spent UTxOs of kinds 5..9 themselves -> 0.
 //!   UNS  the same figures for build_tx_unsafe() at the very end (when a fee is set and it succeeds).
 //!   POL  the fee request at the end: u nothing, n r = the last of the fee/minfee ops was minfee r, e f = it was fee f.
 //!   ORA  per op what hook H5 (rust/src/verif_oracle.rs) recorded (sites F A S T; marker C filtered; for selchange only the
@@ -262,26 +275,77 @@ fn plutus_script(id: u64) -> PlutusScript {
     PlutusScript::new_v2(bytes)
 }
 fn witness_datum(id: u64) -> PlutusData { PlutusData::new_bytes(vec![0xa0 + (id % 16) as u8; 1 + (id % 40) as usize]) }
+/// by-reference scripts are named by their size S: the Plutus V2 script of kinds 5..8 and withdrawals 61..71, the native
+/// script of kind 9; the reference UTxO carrying it is f(class, S, variant)
+fn ref_plutus_script(s: u64) -> PlutusScript {
+    let mut bytes = vec![0x4fu8, 0x01, 0x00, 0x00];
+    bytes.extend_from_slice(&s.to_be_bytes());
+    PlutusScript::new_v2(bytes)
+}
+fn ref_native_keys(s: u64) -> Vec<u64> { if s % 2 == 0 { vec![s % POOL] } else { vec![s % POOL, (s + 1) % POOL] } }
+fn ref_native_script(s: u64) -> NativeScript {
+    let ks = ref_native_keys(s);
+    if ks.len() == 1 { pubkey_script(ks[0]) } else {
+        let mut all = NativeScripts::new();
+        for k in &ks { all.add(&pubkey_script(*k)); }
+        NativeScript::new_script_all(&ScriptAll::new(&all))
+    }
+}
+fn script_ref_outpoint(native: bool, s: u64, variant: u64) -> TransactionInput { ref_outpoint(if native { 42 } else { 41 }, s * 2 + variant % 2) }
+fn ref_plutus_source(s: u64, variant: u64) -> PlutusScriptSource {
+    PlutusScriptSource::new_ref_input(&ref_plutus_script(s).hash(), &script_ref_outpoint(false, s, variant), &Language::new_plutus_v2(), s as usize)
+}
+fn ref_native_source(s: u64, variant: u64) -> NativeScriptSource {
+    let mut src = NativeScriptSource::new_ref_input(&ref_native_script(s).hash(), &script_ref_outpoint(true, s, variant), s as usize);
+    let mut ks = Ed25519KeyHashes::new();
+    for k in ref_native_keys(s) { ks.add(&kh(k)); }
+    src.set_required_signers(&ks);
+    src
+}
+const WDREF: [u64; 11] = [100, 2500, 14000, 25599, 25600, 25601, 51200, 60000, 200000, 3, 30];
 fn plutus_witness(u: &U) -> PlutusWitness {
     let data = PlutusData::new_integer(&BigInt::from_str(&u.id.to_string()).unwrap());
     let red = Redeemer::new(&RedeemerTag::new_spend(), &b64(0), &data, &ExUnits::new(&b64(u.mem), &b64(u.steps)));
-    let src = || PlutusScriptSource::new_ref_input(&scripthash(u.refsize, 40), &ref_outpoint(41, u.refsize), &Language::new_plutus_v2(), u.refsize as usize);
     match u.kind {
         3 => PlutusWitness::new_without_datum(&plutus_script(u.id), &red),
         4 => PlutusWitness::new(&plutus_script(u.id), &witness_datum(u.id), &red),
-        5 => PlutusWitness::new_with_ref_without_datum(&src(), &red),
-        _ => PlutusWitness::new_with_ref(&src(), &DatumSource::new(&witness_datum(u.id)), &red),
+        5 => PlutusWitness::new_with_ref_without_datum(&ref_plutus_source(u.refsize, u.id), &red),
+        6 => PlutusWitness::new_with_ref(&ref_plutus_source(u.refsize, u.id), &DatumSource::new(&witness_datum(u.id)), &red),
+        7 => PlutusWitness::new_without_datum(&ref_plutus_script(u.refsize), &red),
+        _ => PlutusWitness::new(&ref_plutus_script(u.refsize), &witness_datum(u.id), &red),
     }
 }
-/// the script_ref a UTxO of kinds 0..4 carries itself: a Plutus V2 script of `len` raw bytes; as "script" of the CDDL it
-/// is [2, bytes]: 2 + |head(len)| + len bytes
+/// the script_ref a UTxO of kinds 0..4 carries itself, of exactly `refsize` bytes as "script" of the CDDL; its kind by
+/// id mod 4.  Plutus V1/V2/V3: [lang, bytes]: 2 + |head(len)| + len.  Native: [0, [1, [n key hashes, m time locks]]]:
+/// 4 + |head(n + m)| + 32 n + 3 m with the least m (< 32) that fits.
 fn bstr_head(l: usize) -> usize { if l < 24 { 1 } else if l < 256 { 2 } else if l < 65536 { 3 } else { 5 } }
 fn own_ref_len(refsize: u64) -> Option<usize> {
     [1usize, 2, 3, 5].iter().find_map(|h| { let l = (refsize as usize).checked_sub(2 + h)?; if bstr_head(l) == *h { Some(l) } else { None } })
 }
-fn own_script_ref(id: u64, len: usize) -> ScriptRef {
-    let bytes = if len == 0 { vec![] } else { fill(id, 60, len) };
-    ScriptRef::new_plutus_script(&PlutusScript::new_v2(bytes))
+fn own_native_params(refsize: u64) -> Option<(usize, usize)> {
+    [1usize, 2, 3].iter().find_map(|h| {
+        let rest = (refsize as usize).checked_sub(4 + h)?;
+        let m = (rest * 11) % 32;                       // 3 m = rest (mod 32)
+        let n = rest.checked_sub(3 * m)? / 32;
+        if bstr_head(n + m) == *h { Some((n, m)) } else { None }
+    })
+}
+fn own_script_ref(id: u64, refsize: u64) -> Option<ScriptRef> {
+    if id % 4 == 0 {
+        let (n, m) = own_native_params(refsize)?;
+        let mut all = NativeScripts::new();
+        for i in 0..n as u64 {
+            let mut h = vec![61u8; 28];
+            h[1..9].copy_from_slice(&id.to_be_bytes()); h[9..17].copy_from_slice(&i.to_be_bytes());
+            all.add(&NativeScript::new_script_pubkey(&ScriptPubkey::new(&Ed25519KeyHash::from_bytes(h).unwrap())));
+        }
+        for i in 0..m as u64 { all.add(&NativeScript::new_timelock_start(&TimelockStart::new_timelockstart(&b64(i % 24)))); }
+        Some(ScriptRef::new_native_script(&NativeScript::new_script_all(&ScriptAll::new(&all))))
+    } else {
+        let len = own_ref_len(refsize)?;
+        let bytes = if len == 0 { vec![] } else { fill(id, 60, len) };
+        Some(ScriptRef::new_plutus_script(&match id % 4 { 1 => PlutusScript::new(bytes), 2 => PlutusScript::new_v2(bytes), _ => PlutusScript::new_v3(bytes) }))
+    }
 }
 /// the output a UTxO holds, as the builder is shown it in UTxO form
 fn utxo_output(u: &U) -> Result<TransactionOutput, JsError> {
@@ -290,14 +354,14 @@ fn utxo_output(u: &U) -> Result<TransactionOutput, JsError> {
         0 | 1 => utxo_address(u.id, u.kind).unwrap(),
         2 => script_addr(&utxo_native_script(u.id).hash()),
         3 | 4 => script_addr(&plutus_script(u.id).hash()),
-        5 | 6 => script_addr(&scripthash(u.refsize, 40)),
+        5..=8 => script_addr(&ref_plutus_script(u.refsize).hash()),
+        9 => script_addr(&ref_native_script(u.refsize).hash()),
         _ => return Err(JsError::from_str("unknown utxo kind")),
     };
     let mut o = TransactionOutput::new(&addr, &u.val.to_value());
-    match u.kind { 3 | 5 => o.set_plutus_data(&inline_datum()), 4 | 6 => o.set_data_hash(&hash_plutus_data(&witness_datum(u.id))), _ => {} }
+    match u.kind { 3 | 5 | 7 => o.set_plutus_data(&inline_datum()), 4 | 6 | 8 => o.set_data_hash(&hash_plutus_data(&witness_datum(u.id))), _ => {} }
     if u.kind <= 4 && u.refsize > 0 {
-        let len = own_ref_len(u.refsize).ok_or(JsError::from_str("no own script_ref of that size"))?;
-        let sr = own_script_ref(u.id, len);
+        let sr = own_script_ref(u.id, u.refsize).ok_or(JsError::from_str("no own script_ref of that size"))?;
         assert_eq!(sr.to_unwrapped_bytes().len() as u64, u.refsize, "own script_ref size");
         o.set_script_ref(&sr);
     }
@@ -358,6 +422,7 @@ fn reward_address(id: u64) -> RewardAddress {
     match id {
         21..=31 => RewardAddress::new(1, &Credential::from_scripthash(&pubkey_script(id - 20).hash())),
         41..=51 => RewardAddress::new(1, &Credential::from_scripthash(&wd_plutus_script(id).hash())),
+        61..=71 => RewardAddress::new(1, &Credential::from_scripthash(&ref_plutus_script(WDREF[(id - 61) as usize]).hash())),
         _ => RewardAddress::new(1, &key_cred(id % POOL)),
     }
 }
@@ -605,7 +670,12 @@ fn new_world(sc: &Scenario) -> World {
     for k in 0..POOL { key_ids.insert(kh(k).to_bytes(), k); native_keys.insert(pubkey_script(k).hash().to_bytes(), k); }
     let xr_ids: BTreeSet<u64> = sc.ops.iter().filter_map(|o| match o { Op::Xr(i, _) => Some(*i), _ => None }).collect();
     let mut ref_bytes = HashMap::new();
-    for u in &sc.utxos { if u.kind >= 5 { ref_bytes.insert(ref_outpoint(41, u.refsize).to_bytes(), u.refsize); } }
+    for u in &sc.utxos {
+        if matches!(u.kind, 5 | 6 | 9) { ref_bytes.insert(script_ref_outpoint(u.kind == 9, u.refsize, u.id).to_bytes(), u.refsize); }
+    }
+    for o in &sc.ops {
+        if let Op::Wd(Some(ws)) = o { for (a, _) in ws { if let 61..=71 = *a { let z = WDREF[(*a - 61) as usize]; ref_bytes.insert(script_ref_outpoint(false, z, 0).to_bytes(), z); } } }
+    }
     World { tb: TransactionBuilder::new(&cfg), mint: MintBuilder::new(), ib: TxInputsBuilder::new(), coll: TxInputsBuilder::new(),
             utxos: sc.utxos.iter().map(|u| (u.id, u.clone())).collect(),
             addr_ids: HashMap::new(), policy_idx, key_ids, native_keys, plutus_in: false, plutus_wd: false, sdh_set: false, n_xref: 0, xr_ids, ref_bytes }
@@ -674,6 +744,7 @@ fn run_op(w: &mut World, op: &Op, last_tx: &mut Option<Transaction>) -> OpRec {
                             match u.kind {
                                 0 | 1 => ib.add_regular_utxo(&tu),
                                 2 => ib.add_native_script_utxo(&tu, &utxo_native_source(u.id)),
+                                9 => ib.add_native_script_utxo(&tu, &ref_native_source(u.refsize, u.id)),
                                 _ => ib.add_plutus_script_utxo(&tu, &plutus_witness(&u)),
                             }
                         } else {
@@ -683,13 +754,14 @@ fn run_op(w: &mut World, op: &Op, last_tx: &mut Option<Transaction>) -> OpRec {
                                 1 => { if u.id % 4 == 0 { ib.add_bootstrap_input(&byron_addr(u.id % 6), &input, &value); Ok(()) }
                                        else { ib.add_regular_input(&byron_addr(u.id % 6).to_address(), &input, &value) } }
                                 2 => { ib.add_native_script_input(&utxo_native_source(u.id), &input, &value); Ok(()) }
-                                3..=6 => { ib.add_plutus_script_input(&plutus_witness(&u), &input, &value); Ok(()) }
+                                3..=8 => { ib.add_plutus_script_input(&plutus_witness(&u), &input, &value); Ok(()) }
+                                9 => { ib.add_native_script_input(&ref_native_source(u.refsize, u.id), &input, &value); Ok(()) }
                                 _ => Err(JsError::from_str("unknown utxo kind")),
                             }
                         }
                     });
                     w.tb.set_inputs(&w.ib);
-                    if matches!(r, Ok(Ok(()))) && matches!(u.kind, 3..=6) { w.plutus_in = true; }
+                    if matches!(r, Ok(Ok(()))) && matches!(u.kind, 3..=8) { w.plutus_in = true; }
                     r
                 }
                 None => Ok(Err(JsError::from_str("no such utxo"))),
@@ -732,10 +804,16 @@ fn run_op(w: &mut World, op: &Op, last_tx: &mut Option<Transaction>) -> OpRec {
                                     &ExUnits::new(&b64(*a * 1000), &b64(*a * 1_000_000)));
                                 b.add_with_plutus_witness(&addr, c, &PlutusWitness::new_without_datum(&wd_plutus_script(*a), &red)).expect("Plutus reward address")
                             }
+                            61..=71 => {
+                                let red = Redeemer::new(&RedeemerTag::new_reward(), &b64(0), &PlutusData::new_integer(&BigInt::from_str(&a.to_string()).unwrap()),
+                                    &ExUnits::new(&b64(*a * 1000), &b64(*a * 1_000_000)));
+                                let src = ref_plutus_source(WDREF[(*a - 61) as usize], 0);
+                                b.add_with_plutus_witness(&addr, c, &PlutusWitness::new_with_ref_without_datum(&src, &red)).expect("Plutus reward address (by reference)")
+                            }
                             _ => b.add(&addr, c).expect("key reward address"),
                         }
                     }
-                    w.plutus_wd = ws.iter().any(|(a, _)| matches!(*a, 41..=51));
+                    w.plutus_wd = ws.iter().any(|(a, _)| matches!(*a, 41..=51 | 61..=71));
                     w.tb.set_withdrawals_builder(&b);
                 }
             }
@@ -867,6 +945,7 @@ fn signed_figures(w: &World, tx: &Transaction) -> String {
             0 => { keys.insert(utxo_key(id)); }
             1 => { boots.insert(id % 6); }
             2 => { keys.extend(utxo_native_keys(id)); }
+            9 => { keys.extend(ref_native_keys(u.refsize)); }
             _ => {}
         }
     };
@@ -875,7 +954,7 @@ fn signed_figures(w: &World, tx: &Transaction) -> String {
         match (c.to_keyhash(), c.to_scripthash()) {
             (Some(h), _) => Some(key_of(&h)),
             (_, Some(h)) => w.native_keys.get(&h.to_bytes()).cloned().or_else(|| {
-                assert!((41..=51).any(|a| wd_plutus_script(a).hash() == h), "script credential of the body is one of the scenario's scripts"); None }),
+                assert!((41..=51).any(|a| wd_plutus_script(a).hash() == h) || WDREF.iter().any(|z| ref_plutus_script(*z).hash() == h), "script credential of the body is one of the scenario's scripts"); None }),
             _ => None,
         }
     };
@@ -1071,10 +1150,12 @@ fn gen_certs(r: &mut Rng, edge: bool) -> Vec<(u32, Option<BigNum>)> {
 const REF_SIZES: [u64; 12] = [0, 1, 100, 2500, 2500, 14000, 25599, 25600, 25601, 51200, 60000, 200000];
 
 /// a size an own script_ref can have (2 + |head(len)| + len for some len), around the 25600-byte tiers of the fee
-fn gen_own_ref(r: &mut Rng) -> u64 {
-    let t = *r.pick(&[3u64, 30, 100, 2500, 2500, 14000, 25599, 25600, 25601, 51200, 60000, 200000]) + r.below(3);
-    if own_ref_len(t).is_some() { t } else { t + 1 }
+fn gen_own_ref(r: &mut Rng, id: u64) -> u64 {
+    let mut t = *r.pick(&[3u64, 30, 100, 2500, 2500, 14000, 25599, 25600, 25601, 51200, 60000, 200000]) + r.below(3);
+    while own_script_ref_reachable(id, t).is_none() { t += 1; }
+    t
 }
+fn own_script_ref_reachable(id: u64, t: u64) -> Option<()> { if id % 4 == 0 { own_native_params(t).map(|_| ()) } else { own_ref_len(t).map(|_| ()) } }
 fn gen_collateral(r: &mut Rng, utxos: &mut Vec<U>, pre: &mut Vec<Op>) {
     let cid = 800 + r.below(12);
     let ckind = if r.chance(1, 3) { 1 } else { 0 };
@@ -1103,7 +1184,7 @@ fn gen_xr(r: &mut Rng, cfg: &mut Cfg, utxos: &mut Vec<U>, pre: &mut Vec<Op>, all
                 _ => { let id = 700 + r.below(60); if !utxos.iter().any(|u| u.id == id) { utxos.push(U::key(id, Val::ada(3_000_000))); } id }
             };
             let u = utxos.iter_mut().find(|u| u.id == id).unwrap();
-            if u.refsize == 0 && r.chance(4, 5) { u.refsize = gen_own_ref(r); }
+            if u.refsize == 0 && r.chance(4, 5) { u.refsize = gen_own_ref(r, id); }
             let truth = u.refsize;
             let at_least = |r: &mut Rng| if r.chance(3, 4) { truth } else { truth + *r.pick(&[1u64, 100, 25600]) };
             if r.chance(1, 6) { let first = *r.pick(&[0u64, truth / 2, truth, truth + 7, 25600]); pre.push(Op::Xr(id, first)); }
@@ -1118,7 +1199,7 @@ fn gen_xr(r: &mut Rng, cfg: &mut Cfg, utxos: &mut Vec<U>, pre: &mut Vec<Op>, all
 
 /// the witness-relevant extras: Byron / native-script / Plutus UTxOs (some carrying a script_ref of their own), collateral,
 /// required signers, reference inputs, extra datums, metadata, ttl.  Ops are appended to `pre` (which the caller shuffles).
-fn decorate(r: &mut Rng, cfg: &mut Cfg, utxos: &mut Vec<U>, pre: &mut Vec<Op>, full: bool, plutus_wd: bool) {
+fn decorate(r: &mut Rng, cfg: &mut Cfg, utxos: &mut Vec<U>, pre: &mut Vec<Op>, full: bool, plutus_wd: bool, wd_ref: Option<u64>) {
     if full && r.chance(1, 6) {
         // one Byron input, or two or three with addresses of both kinds (with and without the network-magic attribute)
         let n = if r.chance(1, 2) { r.range(2, 3) } else { 1 };
@@ -1129,7 +1210,7 @@ fn decorate(r: &mut Rng, cfg: &mut Cfg, utxos: &mut Vec<U>, pre: &mut Vec<Op>, f
             ids.push(id);
         }
         for id in ids {
-            let refsize = if r.chance(1, 3) { gen_own_ref(r) } else { 0 };
+            let refsize = if r.chance(1, 3) { gen_own_ref(r, id) } else { 0 };
             utxos.push(U { id, kind: 1, mem: 0, steps: 0, refsize, val: Val::ada(r.range(2_000_000, 9_000_000)) }); pre.push(Op::In(id));
         }
     }
@@ -1141,7 +1222,7 @@ fn decorate(r: &mut Rng, cfg: &mut Cfg, utxos: &mut Vec<U>, pre: &mut Vec<Op>, f
             for o in pre.iter() {
                 match o {
                     Op::X(t, k) if t == "sig" => { used.insert(*k); }
-                    Op::Wd(Some(ws)) => for (a, _) in ws { used.insert(match *a { 21..=31 => *a - 20, 41..=51 => 99, _ => *a % POOL }); },
+                    Op::Wd(Some(ws)) => for (a, _) in ws { used.insert(match *a { 21..=31 => *a - 20, 41..=51 | 61..=71 => 99, _ => *a % POOL }); },
                     Op::Certs(Some(cs)) => for i in 0..cs.len() as u64 { used.insert(cert_key(i)); },
                     _ => {}
                 }
@@ -1155,28 +1236,59 @@ fn decorate(r: &mut Rng, cfg: &mut Cfg, utxos: &mut Vec<U>, pre: &mut Vec<Op>, f
             if r.chance(1, 4) { vec![base, base + 25] } else { vec![base] }
         };
         for id in ids {
-            let refsize = if r.chance(1, 4) { gen_own_ref(r) } else { 0 };
+            let refsize = if r.chance(1, 4) { gen_own_ref(r, id) } else { 0 };
             utxos.push(U { id, kind: 2, mem: 0, steps: 0, refsize, val: Val::ada(r.range(2_000_000, 9_000_000)) }); pre.push(Op::In(id));
         }
     }
     let mut datum_rank = 0;      // 2: an input with a witness datum (kinds 4 / 6), 1: other Plutus inputs
-    let plutus_inputs = full && r.chance(1, 8);
+    let plutus_inputs = full && (r.chance(1, 5) || (wd_ref.is_some() && r.chance(1, 2)));
     if plutus_inputs {
-        let n = if r.chance(1, 4) { 2 } else { 1 };
-        let base = 400 + r.below(20);
-        for j in 0..n {
-            let kind = *r.pick(&[3u32, 4, 4, 5, 6, 6]);
-            let by_ref = kind >= 5;
-            datum_rank = datum_rank.max(if kind == 4 || kind == 6 { 2 } else { 1 });
+        // (kind, id, refsize) of the Plutus inputs
+        let mut specs: Vec<(u32, u64, u64)> = vec![];
+        let b = 400 + 2 * r.below(10);                                   // even
+        let by_ref = wd_ref.is_some() || r.chance(1, 2);
+        if by_ref {
+            // the script named by size z: by reference (5 / 6), or the same script inline (7 / 8)
+            let z = match wd_ref { Some(z) if r.chance(3, 4) => z, _ => *r.pick(&REF_SIZES[1..]) + r.below(3) };
+            let dat = |r: &mut Rng, k: u32| if r.chance(1, 2) { k } else { k + 1 };        // inline datum or witness datum
+            if r.chance(1, 2) {
+                // the same script on several inputs (the inputs are ordered by id in the builder)
+                match r.below(5) {
+                    0 => { specs.push((dat(r, 5), b, z)); specs.push((dat(r, 5), b + 1, z)); }               // two different reference UTxOs
+                    1 => { specs.push((dat(r, 5), b + 3, z)); specs.push((dat(r, 5), b, z)); }
+                    2 => { specs.push((dat(r, 7), b + r.below(2), z)); specs.push((dat(r, 5), b + 2 + r.below(2), z)); }   // inline first, reference second
+                    3 => { specs.push((dat(r, 5), b + r.below(2), z)); specs.push((dat(r, 7), b + 2 + r.below(2), z)); }   // reference first, inline second
+                    _ => { specs.push((5, b, z)); specs.push((6, b + 2, z)); }                                  // the same reference UTxO twice
+                }
+                if r.chance(1, 3) { let k = *r.pick(&[5u32, 6, 7, 8]); specs.push((k, b + 4 + r.below(3), z)); }
+            } else {
+                specs.push((dat(r, 5), b + r.below(2), z));
+                if r.chance(1, 4) { let z2 = *r.pick(&REF_SIZES[1..]) + r.below(3); specs.push((dat(r, 5), b + 21, z2)); }
+                if r.chance(1, 6) { specs.push((dat(r, 7), b + 30 + r.below(2), *r.pick(&REF_SIZES[1..]))); }       // inline only
+            }
+            cfg.refprice = if r.chance(1, 8) { None } else { Some(*r.pick(&[[15u64, 1u64], [15, 1], [44, 1], [1, 3]])) };
+            if cfg.maxtx < 16384 && !r.chance(1, 4) { cfg.maxtx = 16384; }
+        } else {
+            let n = if r.chance(1, 4) { 2 } else { 1 };
+            for j in 0..n { let id = b + r.below(2) + j * 21; let k = *r.pick(&[3u32, 4, 4]); specs.push((k, id, if r.chance(1, 4) { gen_own_ref(r, id) } else { 0 })); }
+        }
+        for (kind, id, refsize) in specs {
+            datum_rank = datum_rank.max(if matches!(kind, 4 | 6 | 8) { 2 } else { 1 });
             let mem = match r.below(6) { 0 => 0, 1 => r.u64_edge() >> 24, _ => r.range(1000, 14_000_000) };
             let steps = match r.below(6) { 0 => 0, 1 => r.u64_edge() >> 20, _ => r.range(100_000, 10_000_000_000) };
-            let refsize = if by_ref { *r.pick(&REF_SIZES[1..]) + r.below(3) } else if r.chance(1, 4) { gen_own_ref(r) } else { 0 };
-            let id = base + j * 21;
             utxos.push(U { id, kind, mem, steps, refsize, val: Val::ada(r.range(2_000_000, 9_000_000)) });
             pre.push(Op::In(id));
-            if by_ref { cfg.refprice = if r.chance(1, 5) { None } else { Some(*r.pick(&[[15u64, 1u64], [15, 1], [44, 1], [1, 3]])) }; }
         }
     }
+    // native scripts by reference; two of the same size and different parity name two reference UTxOs
+    if full && r.chance(1, 8) {
+        let z = *r.pick(&REF_SIZES[1..]) + r.below(3);
+        let b = 500 + 2 * r.below(20);
+        let ids = if r.chance(1, 3) { vec![b, b + 1 + 2 * r.below(2)] } else if r.chance(1, 6) { vec![b, b + 2] } else { vec![b + r.below(2)] };
+        for id in ids { utxos.push(U { id, kind: 9, mem: 0, steps: 0, refsize: z, val: Val::ada(r.range(2_000_000, 9_000_000)) }); pre.push(Op::In(id)); }
+        if cfg.refprice.is_none() && !r.chance(1, 5) { cfg.refprice = Some([15, 1]); }
+    }
+    if wd_ref.is_some() && cfg.refprice.is_none() && !r.chance(1, 5) { cfg.refprice = Some([15, 1]); }
     if plutus_inputs || plutus_wd {
         cfg.prices = if r.chance(1, 10) { None } else { Some(*r.pick(&[MAINNET_PRICES, MAINNET_PRICES, [1, 1, 1, 1000], [0, 1, 0, 1]])) };
         if !r.chance(1, 12) { gen_collateral(r, utxos, pre); }
@@ -1217,11 +1329,12 @@ fn gen_scenario(r: &mut Rng, stream: u32) -> Scenario {
         if k == 0 && a64 > 10_000 && !edge { coin = coin.saturating_add(a64.saturating_mul(4000)); }     // fees of hundreds of ADA
         let n_assets = if with_assets { match stream { 3 => r.range(5, 30), _ => r.below(5) } } else { 0 };
         // coin selection is offered Byron UTxOs and UTxOs carrying a script_ref as well
-        let (ukind, refsize) = if stream == 5 { (if r.chance(1, 3) { 1 } else { 0 }, if r.chance(1, 3) { gen_own_ref(r) } else { 0 }) }
-                               else { (0, if r.chance(1, 8) { gen_own_ref(r) } else { 0 }) };
+        let (ukind, refsize) = if stream == 5 { (if r.chance(1, 3) { 1 } else { 0 }, if r.chance(1, 3) { gen_own_ref(r, id) } else { 0 }) }
+                               else { (0, if r.chance(1, 8) { gen_own_ref(r, id) } else { 0 }) };
         utxos.push(U { id, kind: ukind, mem: 0, steps: 0, refsize, val: Val { coin: b64(coin), assets: gen_assets(r, n_assets, n_pol, stream == 3) } });
     }
     let mut plutus_wd = false;
+    let mut wd_ref: Option<u64> = None;
     let key_ids: Vec<u64> = utxos.iter().map(|u| u.id).collect();
     // operations before balancing
     if stream != 5 { for id in &key_ids { pre.push(Op::In(*id)); } }
@@ -1246,6 +1359,7 @@ fn gen_scenario(r: &mut Rng, stream: u32) -> Scenario {
             let mut ids: Vec<u64> = vec![];
             if r.chance(1, 5) { ids.push(21 + r.below(11)); }
             if r.chance(1, 6) { ids.push(41 + r.below(11)); plutus_wd = true; }
+            if r.chance(1, 6) { let a = 61 + r.below(11); ids.push(a); plutus_wd = true; wd_ref = Some(WDREF[(a - 61) as usize]); }
             while ids.len() < n { let a = r.range(1, 11); if !ids.contains(&a) { ids.push(a); } }
             shuffle(r, &mut ids);
             pre.push(Op::Wd(Some(ids.into_iter().map(|a| (a, b64(if edge { r.u64_edge() } else { r.range(0, 3_000_000) }))).collect())));
@@ -1273,7 +1387,7 @@ fn gen_scenario(r: &mut Rng, stream: u32) -> Scenario {
         }
     }
     if r.chance(1, 5) { pre.push(if r.chance(1, 2) { Op::Fee(b64(*r.pick(&[170_000u64, 200_000, 1_000_000, 0, 5_000_000]))) } else { Op::MinFee(b64(*r.pick(&[170_000u64, 250_000, 1_000_000, 0, 5_000_000]))) }); }
-    decorate(r, &mut cfg, &mut utxos, &mut pre, true, plutus_wd);
+    decorate(r, &mut cfg, &mut utxos, &mut pre, true, plutus_wd, wd_ref);
     gen_xr(r, &mut cfg, &mut utxos, &mut pre, stream != 5);
     shuffle_ops(r, &mut pre);
     let change_addr = r.range(1, 30);
@@ -1383,7 +1497,7 @@ fn gen_width(r: &mut Rng) -> Scenario {
         pre.push(Op::Out(r.range(1, 30), *r.pick(&[0u64, 0, 0, 0, 1, 2]), Val::ada(coin)));
     }
     if let Some(m) = meta { pre.push(Op::X("meta".into(), m)); }
-    decorate(r, &mut cfg, &mut utxos, &mut pre, false, false);
+    decorate(r, &mut cfg, &mut utxos, &mut pre, false, false, None);
     gen_xr(r, &mut cfg, &mut utxos, &mut pre, true);
     let head = pre.remove(0);
     shuffle_ops(r, &mut pre);
